@@ -123,7 +123,7 @@ func waitGone(nonce string, max time.Duration) int {
 
 func c11One(probe, root string, c c11Case) c11Obs {
 	o := c11Obs{c11Case: c}
-	nonce := fmt.Sprintf("vqc11x%dx%d", os.Getpid(), c.ID)
+	nonce := fmt.Sprintf("vqc11x%dx%dz", os.Getpid(), c.ID)
 	ctx, cancel := context.WithCancel(context.Background())
 	defer cancel()
 	if c.At < 0 && !c.Destroy {
